@@ -673,7 +673,10 @@ struct GramEngine {
       ChildRes cr = run_child([&](Report &r) { for (size_t k = b; k < e; k++) run_grammar(mine[k], r); }, total, cfg.timeout * cfg.batch);
       if (!cr.ok) {
         if (cfg.deadline > 0 && now_s() > cfg.deadline) { deadline_hit = true; break; }   // do not start an isolation after the deadline
-        isolate(mine, b, e, total);
+        // isolation is expensive (a fork per grammar / variant / input / flag vector): once this shard has
+        // reported 30 violations further failing batches are only counted
+        if (total.counters["violations"] >= 30) total.add("failing_batches_not_isolated");
+        else isolate(mine, b, e, total);
       }
       done = e;
     }
@@ -823,7 +826,7 @@ static std::string obs_digest(const ParseObs &o, int ntoks, bool with_tree, bool
   else if (with_tree && o.rc == 0 && o.root) { DenRes d = denote(o.root, ntoks, true); size_t h = 1469598103934665603ULL; for (auto &t0 : d.trees) { std::string t = loose ? strip_idx(t0) : t0; for (char c : t) h = (h ^ (unsigned char) c) * 1099511628211ULL; } os << " trees=" << d.trees.size() << "#" << h; for (auto &s : d.shape) os << " shape:" << s; if (d.capped) os << " capped"; }
   return os.str();
 }
-static void run_repetitive(int shard, int nshards, int r, int target_len, const std::set<std::string> &known, Report &rep) {
+static void run_repetitive(int shard, int nshards, int r, int target_len, const std::set<std::string> &known, Report &rep, int props = P09) {
   std::vector<Gram> cur = curated_grammars();
   std::vector<RepSpec> specs = {
     {0, {"a", "a+a", "(a)", "a*a", "(a+a)*a"}, "+", {")", "+", "(", ""}},
@@ -836,7 +839,7 @@ static void run_repetitive(int shard, int nshards, int r, int target_len, const 
   long idx = 0;
   // the 200-rule ANSI C grammar of the test suite on test.i (description and token codes are produced at
   // build time from /repo/test, see bin/vcheck gen_ansic): whole file and its first half / quarter
-  if (getenv("VERIF_ANSIC_DESC") && getenv("VERIF_ANSIC_TOKS") && shard == 0) {
+  if ((props & P09) && getenv("VERIF_ANSIC_DESC") && getenv("VERIF_ANSIC_TOKS") && shard == 0) {
     std::string desc; { FILE *f = fopen(getenv("VERIF_ANSIC_DESC"), "r"); if (f) { char b[65536]; size_t k; while ((k = fread(b, 1, sizeof b, f)) > 0) desc.append(b, k); fclose(f); } }
     std::vector<int> all; { FILE *f = fopen(getenv("VERIF_ANSIC_TOKS"), "r"); int c; if (f) { while (fscanf(f, "%d", &c) == 1) all.push_back(c); fclose(f); } }
     if (!desc.empty() && all.size() > 1000) {
@@ -889,6 +892,14 @@ static void run_repetitive(int shard, int nshards, int r, int target_len, const 
         bool ok_codes = true; for (int t : in) { bool f = false; for (auto &tt : g.terms) if (tt.second == t) f = true; if (!f) ok_codes = false; }
         if (!ok_codes) machinery_error("repetitive input uses an undeclared code: " + text);
         std::string first, firstfl, first_loose;
+        // C01 / C06 on the short forms: verdict and first error position against the reference (the inputs
+        // repeat fragments, so the (set, terminal, lookahead) cache is exercised, unlike inputs of length <= 6)
+        int ferr = -2; bool refck = (props & (P01 | P06)) && (int) in.size() <= 30;   // the reference keeps position sets in 32-bit words
+        if (refck) {
+          std::vector<int> w; for (int t : in) for (size_t k = 0; k < g.terms.size(); k++) if (g.terms[k].second == t) { w.push_back((int) k); break; }
+          ferr = first_error_index(g, w);
+          rep.add(ferr == -1 ? "rep_sentences" : "rep_nonsentences");
+        }
         for (int one : {1, 0}) {
           if (!one && (int) in.size() > 14) continue;   // all-parses DAG expansion only on the short forms
           first.clear();
@@ -918,6 +929,20 @@ static void run_repetitive(int shard, int nshards, int r, int target_len, const 
               }
             }
             if (!o.errs.empty()) rep.add("c09_long_inputs_with_recovery");
+            if (refck) {
+              auto VP = [&](const std::string &prop, const std::string &kind, const std::string &detail) { rep.viol("{\"property\":" + jstr(prop) + ",\"kind\":" + jstr(kind) + ",\"engine\":\"gram\",\"case\":" + jstr(addr) + ",\"grammar\":" + jstr(gram_to_string(g)) + ",\"tokens\":" + jstr(text.substr(0, 300)) + ",\"detail\":" + jstr(detail) + "}"); };
+              if (props & P01) {
+                rep.add("c01_rep_cases");
+                if (o.rc != 0) VP("C01", "nonzero-return", "yaep_parse returned " + std::to_string(o.rc) + " on declared tokens: " + text);
+                else if (ferr == -1 && (!o.errs.empty() || o.root == NULL)) VP("C01", "sentence-rejected", "recovery on, sentence " + text + ": " + std::to_string(o.errs.size()) + " syntax_error calls, root " + (o.root ? "non-NULL" : "NULL"));
+                else if (ferr != -1 && o.errs.empty()) VP("C01", "nonsentence-accepted", "recovery on, non-sentence " + text + ": no syntax_error call");
+              }
+              if ((props & P06) && ferr != -1 && o.rc == 0) {
+                rep.add("c06_cases"); rep.add("c06_rep_cases");
+                if (o.errs.empty()) VP("C06", "no-callback", "non-sentence " + text + " without any syntax_error call");
+                else if (o.errs[0].err != ferr) VP("C06", "first-error-position", "first syntax_error reports token " + std::to_string(o.errs[0].err) + " of " + text + ", the first token that no sentence can contain at that place is " + std::to_string(ferr));
+              }
+            }
             vy_free(y);
           }
         }
@@ -969,8 +994,9 @@ int eng_gram_main(int argc, char **argv) {
     int si = 0, sn = 1; sscanf(a.get("shard", "0/1").c_str(), "%d/%d", &si, &sn);
     Report total;
     int r = (int) a.geti("r", 3), tl = (int) a.geti("len", 300);
-    ChildRes cr = run_child([&](Report &rp) { run_repetitive(si, sn, r, tl, c.known_enabled, rp); }, total, 3000);
-    if (!cr.ok) total.viol("{\"property\":\"C09\",\"kind\":\"crash\",\"engine\":\"gram\",\"case\":\"repetitive inputs\",\"grammar\":\"\",\"tokens\":\"\",\"detail\":" + jstr(child_failure_text(cr) + "; stderr: " + cr.err_tail.substr(0, 1500)) + "}");
+    ChildRes cr = run_child([&](Report &rp) { run_repetitive(si, sn, r, tl, c.known_enabled, rp, c.props); }, total, 3000);
+    std::string crash_prop = (c.props & P09) ? "C09" : (c.props & P06) ? "C06" : "C01";
+    if (!cr.ok) total.viol("{\"property\":" + jstr(crash_prop) + ",\"kind\":\"crash\",\"engine\":\"gram\",\"case\":\"repetitive inputs\",\"grammar\":\"\",\"tokens\":\"\",\"detail\":" + jstr(child_failure_text(cr) + "; stderr: " + cr.err_tail.substr(0, 1500)) + "}");
     total.write_json(a.get("out", "/dev/stdout"), ",\n \"deadline_hit\": false");
     return 0;
   }
